@@ -63,6 +63,8 @@ def runs(prop, tier):
             ("G(5) with at most 7 edges x PM2 and x PM, k in {%s}" % ks_q, [["--n", 5, "--alpha", a, "--max-m", 7, "--ks", ks_q] for a in ("PM2", "PM")]),
             ("amplified gadgets over G(5) with at most 8 edges x {1,1000,2000}, 5 copies, 3 orientations, k in {2,3}; over G(5) x {1,100}, 4 copies",
              [["--n", 5, "--alpha", "H3", "--amp", 5, "--ks", "2,3", "--max-m", 8, "--orient", o] for o in (0, 1, 2)] + [["--n", 5, "--alpha", "H2", "--amp", 4, "--ks", "2,3", "--orient", o] for o in (0, 1)]),
+            ("amplified gadgets with a shared two-edge detour (3 copies glued at the path 0-2-1): base graphs on 6 vertices with at most 7 edges x {1,3,1000}, 3 orientations, reversed edge order, k=2",
+             [["--n", 6, "--alpha", "L3", "--amp", 3, "--amp-shared", 3, "--detour-012", "--max-m", 7, "--ks", "2", "--orient", o] for o in (0, 1, 2)] + [["--n", 6, "--alpha", "L3", "--amp", 3, "--amp-shared", 3, "--detour-012", "--max-m", 7, "--ks", "2", "--orient", 1, "--eorder", 1]]),
             ("G(5) x D, k in {%s}" % ks_q, [["--n", 5, "--alpha", "D", "--ks", ks_q]]),
             ("families x A2", [["--families", "wheel:5,wheel:6,prism:3,prism:4,Kb:3:3,cube:3,grid:3:3,petersen,grid:2:5", "--alpha", "A2", "--ks", ks_t]]),
             ("G(6) x U, k in {%s}" % ks_t, [["--n", 6, "--alpha", "U", "--ks", ks_t]]),
